@@ -964,3 +964,479 @@ fn c01_atomic_cover__outside() {
 fn c01_atomic_cover__inside() {
     atomic_cover_body(true);
 }
+
+// ================================================================================================
+// C02 / C03 / C18: the general (multi-thread) contracts of atomic::State
+// ================================================================================================
+
+/// `wf_atomic` for `nlive` live slots (slots 0..nlive-1 when nlive < 7, all when nlive == 7):
+/// live stores have pairwise distinct modification-order clocks (loom asserts this itself: F6),
+/// a store is at least as late in mo as its own happens-before view, its writer has seen it, and
+/// never-written slots are default.
+pub(crate) fn wf_atomic(v: &AtomicView, nlive: usize) -> bool {
+    let mut ok = !v.is_mutating && (if nlive < H { v.cnt as usize == nlive } else { v.cnt as usize >= H }) && nlive >= 1;
+    let mut i = 0;
+    while i < H {
+        if i < nlive {
+            ok = ok && vv_le(&v.stores[i].hb, &v.stores[i].mo);
+            let mut j = 0;
+            while j < H {
+                if j < nlive && j != i {
+                    ok = ok && !vv_eq(&v.stores[i].mo, &v.stores[j].mo);
+                }
+                j += 1;
+            }
+        } else {
+            ok = ok && slot_is_default(&v.stores[i]);
+        }
+        i += 1;
+    }
+    ok
+}
+
+fn seen_before_yield(fs: &[u16; MAX_THREADS], a: usize, last_yield: Option<u16>) -> bool {
+    match last_yield {
+        None => false,
+        Some(y) => {
+            let s = if a == 0 { fs[0] } else if a == 1 { fs[1] } else { fs[2] };
+            s != u16::MAX && s <= y
+        }
+    }
+}
+
+fn match_load_body(nlive: usize) {
+    let set = any_set(2);
+    let a = crate::rt::thread::verif_kani::active_index(&set).unwrap();
+    let th = crate::rt::thread::verif_kani::th_view(thread_at(&set, a));
+    let c = th.causality;
+    let mut st = any_atomic_state();
+    if nlive < H {
+        st.cnt = nlive as u16;
+    } else {
+        kani::assume(st.cnt as usize >= H);
+    }
+    let v = atomic_view(&st);
+    kani::assume(wf_atomic(&v, nlive));
+    let o = any_order();
+    let mut seed = [0u8; H];
+    let n = st.match_load_to_stores(&set, &mut seed[..], o);
+    oblige!("C02.candidates.count_in_range", n <= nlive);
+    // membership vector
+    let mut offered = [false; H];
+    let mut k = 0;
+    while k < H {
+        if k < n {
+            let idx = seed[k] as usize;
+            oblige!("C02.candidates.only_live_slots_offered", idx < nlive);
+            let mut j = 0;
+            while j < H {
+                if j == idx {
+                    oblige!("C02.candidates.each_candidate_offered_once", !offered[j]);
+                    offered[j] = true;
+                }
+                j += 1;
+            }
+        }
+        k += 1;
+    }
+    let mut i = 0;
+    while i < H {
+        if i < nlive && !offered[i] {
+            // C02: a live store may be withheld only for a stated reason, each of which needs a live
+            // store j that is strictly later in modification order
+            let mut reason = false;
+            let mut j = 0;
+            while j < H {
+                if j < nlive && j != i && vv_lt(&v.stores[i].mo, &v.stores[j].mo) {
+                    let coherence = spec_seen_by_current(&v.stores[j].first_seen, &c);
+                    let yield_rule = seen_before_yield(&v.stores[i].first_seen, a, th.last_yield);
+                    let sc_rule = o == Ordering::SeqCst && v.stores[i].seq_cst && v.stores[j].seq_cst;
+                    reason = reason || coherence || yield_rule || sc_rule;
+                }
+                j += 1;
+            }
+            oblige!("C02.candidates.store_withheld_only_for_a_coherence_yield_or_sc_reason", reason);
+        }
+        if i < nlive && offered[i] {
+            // C03 (coherence, CoRR/CoWR as encoded by mo): a store is not offered when a mo-later
+            // store has already been observed by an event in the loading thread's causal past
+            let mut j = 0;
+            while j < H {
+                if j < nlive && j != i && vv_lt(&v.stores[i].mo, &v.stores[j].mo) {
+                    oblige!("C03.coherence.no_read_of_a_store_older_than_one_already_observed",
+                        !spec_seen_by_current(&v.stores[j].first_seen, &c));
+                }
+                j += 1;
+            }
+        }
+        // C18: a modification-order-maximal store is never withheld (a spin loop can always exit
+        // with the newest value)
+        if i < nlive {
+            let mut maximal = true;
+            let mut j = 0;
+            while j < H {
+                if j < nlive && j != i && vv_lt(&v.stores[i].mo, &v.stores[j].mo) {
+                    maximal = false;
+                }
+                j += 1;
+            }
+            oblige!("C18.noexitloss.mo_maximal_store_always_offered", !maximal || offered[i]);
+        }
+        i += 1;
+    }
+    // match_rmw_to_stores: exactly the mo-maximal live stores (C03.rmw: an RMW reads the latest value)
+    let mut seed2 = [0u8; H];
+    let n2 = st.match_rmw_to_stores(&mut seed2[..]);
+    let mut off2 = [false; H];
+    let mut k = 0;
+    while k < H {
+        if k < n2 {
+            let idx = seed2[k] as usize;
+            let mut j = 0;
+            while j < H {
+                if j == idx {
+                    off2[j] = true;
+                }
+                j += 1;
+            }
+        }
+        k += 1;
+    }
+    let mut i = 0;
+    while i < H {
+        let mut maximal = i < nlive;
+        let mut j = 0;
+        while j < H {
+            if i < nlive && j < nlive && j != i && vv_lt(&v.stores[i].mo, &v.stores[j].mo) {
+                maximal = false;
+            }
+            j += 1;
+        }
+        oblige!("C03.rmw.candidates_are_exactly_the_mo_maximal_stores", off2[i] == maximal);
+        i += 1;
+    }
+    reach!("c02_match_load");
+}
+
+//@ props=C02,C03,C18 tier=quick timeout=1800 fns=src/rt/atomic.rs::State::match_load_to_stores,src/rt/atomic.rs::State::match_rmw_to_stores,src/rt/atomic.rs::FirstSeen::is_seen_before_yield bounded=threads:N=2,live_stores:2 models=FirstSeen::is_seen_by_current=s_firstseen
+#[kani::proof]
+#[kani::unwind(12)]
+#[kani::stub(std::hash::RandomState::new, crate::rt::thread::verif_kani::fixed_random_state)]
+#[kani::stub(crate::rt::atomic::FirstSeen::is_seen_by_current, crate::rt::atomic::FirstSeen::is_seen_by_current_model)]
+fn c02_match_load_live2() {
+    match_load_body(2);
+}
+
+//@ props=C02,C03,C18 tier=quick timeout=1800 fns=src/rt/atomic.rs::State::match_load_to_stores,src/rt/atomic.rs::State::match_rmw_to_stores bounded=threads:N=2,live_stores:3 models=FirstSeen::is_seen_by_current=s_firstseen
+#[kani::proof]
+#[kani::unwind(12)]
+#[kani::stub(std::hash::RandomState::new, crate::rt::thread::verif_kani::fixed_random_state)]
+#[kani::stub(crate::rt::atomic::FirstSeen::is_seen_by_current, crate::rt::atomic::FirstSeen::is_seen_by_current_model)]
+fn c02_match_load_live3() {
+    match_load_body(3);
+}
+
+//@ props=C02,C03,C18 tier=thorough timeout=3000 fns=src/rt/atomic.rs::State::match_load_to_stores,src/rt/atomic.rs::State::match_rmw_to_stores bounded=threads:N=2,live_stores:7 models=FirstSeen::is_seen_by_current=s_firstseen
+#[kani::proof]
+#[kani::unwind(12)]
+#[kani::stub(std::hash::RandomState::new, crate::rt::thread::verif_kani::fixed_random_state)]
+#[kani::stub(crate::rt::atomic::FirstSeen::is_seen_by_current, crate::rt::atomic::FirstSeen::is_seen_by_current_model)]
+fn c02_match_load_live7() {
+    match_load_body(7);
+}
+
+// ---- State::store (general): C02.store_order / C03 write-write & read-write coherence ---------------
+
+fn store_general_body(k: usize, full: bool) {
+    let mut set = any_set(2);
+    crate::rt::thread::verif_kani::assume_incrementable(&set);
+    let a = crate::rt::thread::verif_kani::active_index(&set).unwrap();
+    let th = crate::rt::thread::verif_kani::th_view(thread_at(&set, a));
+    let mut st = any_atomic_state();
+    st.cnt = cnt_for(k, full);
+    kani::assume(st.cnt < u16::MAX);
+    let old = atomic_view(&st);
+    let given = any_sync();
+    let given_hb = sync_hb(&given);
+    let val: u64 = kani::any();
+    let o = any_order();
+    st.store(&mut set, given, val, o);
+    let new = atomic_view(&st);
+    let slot = k % H;
+    let ns = new.stores[slot];
+    // expected modification-order clock: own view joined with the mo of every store already observed
+    // by an event in the writer's causal past -- and nothing more (two racing stores stay unordered)
+    let mut want_mo = th.causality;
+    let mut i = 0;
+    while i < H {
+        if spec_seen_by_current(&old.stores[i].first_seen, &th.causality) {
+            want_mo = join_of(&want_mo, &old.stores[i].mo);
+        }
+        i += 1;
+    }
+    let mut want_sync = join_of(&given_hb, &th.released);
+    if crate::rt::synchronize::verif_kani::releases(o) {
+        want_sync = join_of(&want_sync, &th.causality);
+    }
+    oblige!("C03.store.records_value_and_writers_view", ns.value == val && vv_eq(&ns.hb, &th.causality) && new.cnt == old.cnt + 1);
+    oblige!("C02.store_order.mo_is_exactly_own_view_joined_with_observed_stores", vv_eq(&ns.mo, &want_mo));
+    oblige!("C03.store.release_view_is_exact", vv_eq(&ns.sync, &want_sync));
+    oblige!("C03.store.seq_cst_flag", ns.seq_cst == (o == Ordering::SeqCst));
+    let mut t = 0;
+    while t < MAX_THREADS {
+        let want = if t == a { vv_get(&th.causality, a) } else { u16::MAX };
+        oblige!("C03.store.first_seen_only_by_writer", ns.first_seen[t] == want);
+        t += 1;
+    }
+    let mut i = 0;
+    while i < H {
+        oblige!("C03.store.other_slots_untouched", i == slot || store_view_eq(&old.stores[i], &new.stores[i]));
+        i += 1;
+    }
+    let nt = crate::rt::thread::verif_kani::th_view(thread_at(&set, a));
+    oblige!("C02.nosync.store_changes_no_thread_view", crate::rt::thread::verif_kani::th_view_eq(&th, &nt));
+    reach!("c03_store_general");
+}
+
+crate::with_fire_forbidden! {
+//@ props=C02,C03 tier=quick fns=src/rt/atomic.rs::State::store bounded=threads:N=2 models=VersionVec::join=s_vv_models_agree,FirstSeen::is_seen_by_current=s_firstseen
+#[kani::proof]
+#[kani::unwind(12)]
+fn c03_store_general_p3() {
+    store_general_body(3, false);
+}
+}
+
+crate::with_fire_forbidden! {
+//@ props=C02,C03 tier=quick fns=src/rt/atomic.rs::State::store bounded=threads:N=2 models=VersionVec::join=s_vv_models_agree,FirstSeen::is_seen_by_current=s_firstseen
+#[kani::proof]
+#[kani::unwind(12)]
+fn c03_store_general_w5() {
+    store_general_body(5, true);
+}
+}
+
+// ---- State::load (general) ----------------------------------------------------------------------------
+
+fn load_general_body(idx: usize) {
+    let mut set = any_set(2);
+    crate::rt::thread::verif_kani::assume_incrementable(&set);
+    let a = crate::rt::thread::verif_kani::active_index(&set).unwrap();
+    let th = crate::rt::thread::verif_kani::th_view(thread_at(&set, a));
+    let mut st = any_atomic_state();
+    kani::assume(!st.is_mutating && vv_le(&st.unsync_mut_at, &th.causality)); // no race: C04 has its own harnesses
+    let old = atomic_view(&st);
+    let o = any_order();
+    let r = load_at(&mut st, &mut set, idx, o);
+    let new = atomic_view(&st);
+    let nt = crate::rt::thread::verif_kani::th_view(thread_at(&set, a));
+    let (os, ns) = (old.stores[idx], new.stores[idx]);
+    oblige!("C03.load.returns_value_of_the_chosen_store", r == os.value);
+    let want_c = if crate::rt::synchronize::verif_kani::acquires(o) { join_of(&th.causality, &os.sync) } else { th.causality };
+    oblige!("C02.nosync.load_acquires_exactly_per_ordering", vv_eq(&nt.causality, &want_c)
+        && crate::rt::thread::verif_kani::th_view_eq_except_causality(&th, &nt));
+    oblige!("C03.load.coherence_only_moves_the_read_store_later_in_mo", vv_le(&os.mo, &ns.mo) && ns.value == os.value
+        && vv_eq(&ns.hb, &os.hb) && vv_eq(&ns.sync, &os.sync) && ns.seq_cst == os.seq_cst);
+    let mut t = 0;
+    while t < MAX_THREADS {
+        let want = if t == a && os.first_seen[t] == u16::MAX { vv_get(&th.causality, a) } else { os.first_seen[t] };
+        oblige!("C03.load.marks_first_seen_for_the_loading_thread_only", ns.first_seen[t] == want);
+        t += 1;
+    }
+    let mut i = 0;
+    while i < H {
+        oblige!("C03.load.other_slots_untouched", i == idx || store_view_eq(&old.stores[i], &new.stores[i]));
+        i += 1;
+    }
+    oblige!("C03.load.count_unchanged", new.cnt == old.cnt);
+    reach!("c03_load_general");
+}
+
+crate::with_fire_forbidden! {
+//@ props=C02,C03 tier=quick timeout=2400 weight=heavy fns=src/rt/atomic.rs::State::load,src/rt/atomic.rs::State::apply_load_coherence bounded=threads:N=2 models=VersionVec::join=s_vv_models_agree,FirstSeen::is_seen_by_current=s_firstseen
+#[kani::proof]
+#[kani::unwind(12)]
+fn c03_load_general() {
+    match kani::any::<u8>() {
+        0 => load_general_body(0),
+        1 => load_general_body(3),
+        _ => load_general_body(6),
+    }
+}
+}
+
+// ---- fences (S.fence; C02 no over-synchronisation, C03 no under-synchronisation, SC total order) ------
+
+/// Execution with 2 threads and one atomic (object 0) holding `nlive` live stores (cnt = nlive < 7).
+fn fence_exec(nlive: usize) -> ManuallyDrop<Execution> {
+    let set = any_set(2);
+    let mut st = any_atomic_state();
+    st.cnt = nlive as u16;
+    kani::assume(wf_atomic(&atomic_view(&st), nlive));
+    let mut ex = crate::rt::execution::verif_kani::exec_with(ManuallyDrop::into_inner(set), 4);
+    crate::rt::execution::verif_kani::objects_mut(&mut ex).insert(st);
+    ex
+}
+
+fn atomic0(ex: &Execution) -> AtomicView {
+    let r: object::Ref<State> = crate::rt::object::verif_kani::mk_ref(0);
+    atomic_view(r.get(crate::rt::execution::verif_kani::objects(ex)))
+}
+
+/// Finding region F2: some live store has NOT been read (or written) by the fencing thread itself.
+/// (`fence_acq` tests `is_seen_by_current`, i.e. "seen by any thread in my causal past", and
+/// re-evaluates it while the fence's own joins enlarge that past; whenever the fencing thread has
+/// itself seen every live store the two notions coincide.)
+fn region_f2(v: &AtomicView, nlive: usize, a: usize, _c: &VersionVec) -> bool {
+    let mut r = false;
+    let mut i = 0;
+    while i < H {
+        if i < nlive {
+            let own = if a == 0 { v.stores[i].first_seen[0] } else { v.stores[i].first_seen[1] };
+            if own == u16::MAX {
+                r = true;
+            }
+        }
+        i += 1;
+    }
+    r
+}
+
+fn fence_acq_body(inside: bool) {
+    const NL: usize = 2;
+    let mut ex = fence_exec(NL);
+    let old = set_view(&ex.threads);
+    let a = old.active.unwrap();
+    let oa = old.th[a];
+    let av = atomic0(&ex);
+    // validity: a thread's own first-seen stamp is in its own past
+    let mut i = 0;
+    while i < NL {
+        let own = if a == 0 { av.stores[i].first_seen[0] } else { av.stores[i].first_seen[1] };
+        kani::assume(own == u16::MAX || own <= vv_get(&oa.causality, a));
+        i += 1;
+    }
+    kani::assume(region_f2(&av, NL, a, &oa.causality) == inside);
+    fence_acq(&mut ex);
+    let new = set_view(&ex.threads);
+    let na = new.th[a];
+    // C11 acquire fence: synchronises with the release stores that the fencing thread ITSELF has read
+    let mut want = oa.causality;
+    let mut i = 0;
+    while i < NL {
+        let own = if a == 0 { av.stores[i].first_seen[0] } else { av.stores[i].first_seen[1] };
+        if own != u16::MAX {
+            want = join_of(&want, &av.stores[i].sync);
+        }
+        i += 1;
+    }
+    oblige!("C03.fence_acq.picks_up_every_store_read_by_this_thread", vv_le(&want, &na.causality));
+    oblige!("C02.fence_acq.synchronises_with_nothing_else", vv_le(&na.causality, &want));
+    let (oo, no) = (old.th[1 - a], new.th[1 - a]); // by value (CBMC: never `&arr[sym]`)
+    oblige!("S.fence_acq.frame", crate::rt::thread::verif_kani::th_view_eq_except_causality(&oa, &na)
+        && th_view_eq(&oo, &no) && vv_eq(&new.seq_cst, &old.seq_cst));
+    let an = atomic0(&ex);
+    oblige!("S.fence_acq.atomic_untouched", store_view_eq(&av.stores[0], &an.stores[0]) && store_view_eq(&av.stores[1], &an.stores[1]) && an.cnt == av.cnt);
+    reach!("s_fence_acq");
+}
+
+crate::with_fire_forbidden! {
+//@ props=C02,C03,C04 tier=quick timeout=1500 fns=src/rt/atomic.rs::fence_acq,src/rt/atomic.rs::State::stores_mut,src/rt/atomic.rs::range,src/rt/object.rs::Store::iter_mut bounded=threads:N=2,atomics:1,live_stores:2 models=VersionVec::join=s_vv_models_agree,FirstSeen::is_seen_by_current=s_firstseen
+#[kani::proof]
+#[kani::unwind(12)]
+fn s_fence_acq__outside() {
+    fence_acq_body(false);
+}
+}
+
+crate::with_fire_forbidden! {
+//@ props=C02 tier=quick timeout=1500 fns=src/rt/atomic.rs::fence_acq bounded=threads:N=2,atomics:1,live_stores:2 finding=F2 expect=C02.fence_acq.synchronises_with_nothing_else
+#[kani::proof]
+#[kani::unwind(12)]
+fn s_fence_acq__inside() {
+    fence_acq_body(true);
+}
+}
+
+crate::with_fire_forbidden! {
+//@ props=C02,C03 tier=quick fns=src/rt/atomic.rs::fence_rel,src/rt/atomic.rs::fence_seqcst,src/rt/atomic.rs::fence_acqrel,src/rt/thread.rs::Set::seq_cst_fence bounded=threads:N=2,atomics:0 models=VersionVec::join=s_vv_models_agree
+#[kani::proof]
+#[kani::unwind(12)]
+fn s_fence_rel_and_seqcst() {
+    let set = any_set(2);
+    let mut ex = crate::rt::execution::verif_kani::exec_with(ManuallyDrop::into_inner(set), 4);
+    let old = set_view(&ex.threads);
+    let a = old.active.unwrap();
+    let oa = old.th[a];
+    if kani::any() {
+        fence_rel(&mut ex);
+        let new = set_view(&ex.threads);
+        let na = new.th[a];
+        oblige!("S.fence_rel.release_view_is_a_snapshot_of_current_view", vv_eq(&na.released, &oa.causality) && vv_eq(&na.causality, &oa.causality));
+        let (oo, no) = (old.th[1 - a], new.th[1 - a]);
+        oblige!("S.fence_rel.frame", th_view_eq(&oo, &no) && vv_eq(&new.seq_cst, &old.seq_cst));
+    } else {
+        // no atomics in the store: the acquire part is a no-op; the SC part totally orders SC fences
+        fence_seqcst(&mut ex);
+        let new = set_view(&ex.threads);
+        let na = new.th[a];
+        let want_c = join_of(&oa.causality, &old.seq_cst);
+        oblige!("C03.fence_seqcst.acquires_every_earlier_sc_fence", vv_eq(&na.causality, &want_c));
+        oblige!("C03.fence_seqcst.publishes_to_every_later_sc_fence", vv_eq(&new.seq_cst, &want_c));
+        oblige!("S.fence_seqcst.also_a_release_fence", vv_eq(&na.released, &oa.causality) || vv_eq(&na.released, &want_c));
+        let (oo, no) = (old.th[1 - a], new.th[1 - a]);
+        oblige!("S.fence_seqcst.frame", th_view_eq(&oo, &no));
+    }
+    reach!("s_fence_rel_and_seqcst");
+}
+}
+
+// ---- State::rmw (general): value, per-path synchronisation, release sequence ---------------------------
+
+fn rmw_general_body(idx: usize) {
+    let mut set = any_set(2);
+    crate::rt::thread::verif_kani::assume_incrementable(&set);
+    let a = crate::rt::thread::verif_kani::active_index(&set).unwrap();
+    let th = crate::rt::thread::verif_kani::th_view(thread_at(&set, a));
+    let mut st = any_atomic_state();
+    st.cnt = 4;
+    kani::assume(!st.is_mutating && vv_le(&st.unsync_mut_at, &th.causality) && vv_le(&st.unsync_loaded_at, &th.causality));
+    let old = atomic_view(&st);
+    let (so, fo) = (any_order(), any_order());
+    let next: u64 = kani::any();
+    let fail: bool = kani::any();
+    let r = rmw_at(&mut st, &mut set, idx, so, fo, |p| if fail { Err(p) } else { Ok(next) });
+    let new = atomic_view(&st);
+    let nt = crate::rt::thread::verif_kani::th_view(thread_at(&set, a));
+    let read = old.stores[idx];
+    if fail {
+        // C02: only the FAILURE ordering synchronises on the failure path
+        let want_c = if crate::rt::synchronize::verif_kani::acquires(fo) { join_of(&th.causality, &read.sync) } else { th.causality };
+        oblige!("C02.rmw.failure_path_acquires_exactly_per_failure_ordering", vv_eq(&nt.causality, &want_c));
+        oblige!("C03.rmw.failure_stores_nothing", r == Err(read.value) && new.cnt == old.cnt && values_unchanged(&old, &new));
+    } else {
+        let want_c = if crate::rt::synchronize::verif_kani::acquires(so) { join_of(&th.causality, &read.sync) } else { th.causality };
+        let ns = new.stores[4];
+        oblige!("C03.rmw.success_returns_value_read_and_writes_new_value", r == Ok(read.value) && ns.value == next && new.cnt == old.cnt + 1);
+        oblige!("C02.rmw.success_path_acquires_exactly_per_success_ordering", vv_eq(&nt.causality, &want_c));
+        // release sequence: the new store carries the release view of the store it read, whatever the RMW's ordering
+        let mut want_sync = join_of(&read.sync, &th.released);
+        if crate::rt::synchronize::verif_kani::releases(so) {
+            want_sync = join_of(&want_sync, &want_c);
+        }
+        oblige!("C03.rmw.release_sequence_continues_through_the_rmw", vv_le(&read.sync, &ns.sync));
+        oblige!("C03.rmw.new_store_release_view_is_exact", vv_eq(&ns.sync, &want_sync));
+        oblige!("C03.rmw.new_store_is_mo_after_the_store_read", vv_le(&new.stores[idx].mo, &ns.mo));
+    }
+    oblige!("C02.nosync.rmw_changes_nothing_else_of_the_thread", crate::rt::thread::verif_kani::th_view_eq_except_causality(&th, &nt));
+    reach!("c03_rmw_general");
+}
+
+crate::with_fire_forbidden! {
+//@ props=C02,C03 tier=quick timeout=2400 weight=heavy fns=src/rt/atomic.rs::State::rmw bounded=threads:N=2,cnt:4 models=VersionVec::join=s_vv_models_agree,FirstSeen::is_seen_by_current=s_firstseen
+#[kani::proof]
+#[kani::unwind(12)]
+fn c03_rmw_general() {
+    if kani::any() { rmw_general_body(0) } else { rmw_general_body(3) }
+}
+}
